@@ -27,6 +27,7 @@ type Result struct {
 	Signal   int // terminating signal, 0 if none
 	CPUms    int64
 	WallKill bool // the wall-clock watchdog fired (=> inconclusive, never a verdict)
+	Blocked  bool // killed because it consumed no CPU at all over several samples while unfinished: everything in it is blocked
 	StartErr error
 }
 
@@ -35,7 +36,7 @@ func (r *Result) OK() bool { return r.StartErr == nil && r.Signal == 0 && r.Exit
 
 // CPUHang is true when the CPU-seconds limit killed the child.
 func (r *Result) CPUHang() bool {
-	return r.Signal == int(syscall.SIGXCPU) || (r.Signal == int(syscall.SIGKILL) && !r.WallKill)
+	return r.Blocked || r.Signal == int(syscall.SIGXCPU) || (r.Signal == int(syscall.SIGKILL) && !r.WallKill)
 }
 
 // Crashed reports a Go runtime panic / fatal error / foreign signal.
@@ -59,13 +60,14 @@ func (r *Result) Crashed() (bool, string) {
 
 // Runner runs one binary.
 type Runner struct {
-	Bin      string
-	CPUSec   int           // CPU seconds limit per child
-	Wall     time.Duration // wall-clock watchdog
-	Env      []string      // extra environment
-	MaxOut   int           // cap on captured bytes per stream
-	Runs     atomic.Int64
-	WallHits atomic.Int64
+	Bin       string
+	CPUSec    int           // CPU seconds limit per child
+	Wall      time.Duration // wall-clock watchdog
+	Env       []string      // extra environment
+	MaxOut    int           // cap on captured bytes per stream
+	IdleAfter time.Duration // when to start sampling a lingering child for "blocked" (default 25 s)
+	Runs      atomic.Int64
+	WallHits  atomic.Int64
 }
 
 func New(bin string) *Runner {
@@ -123,7 +125,12 @@ func (r *Runner) Run(o Opt, args ...string) *Result {
 	cmd.Stdout = so
 	cmd.Stderr = se
 	res := &Result{Argv: append([]string{}, args...)}
-	err := cmd.Run()
+	err := cmd.Start()
+	if err == nil {
+		done := make(chan error, 1)
+		go func() { done <- cmd.Wait() }()
+		err = r.supervise(cmd, done, res)
+	}
 	res.Stdout = so.b.Bytes()
 	res.Stderr = se.b.Bytes()
 	if cmd.ProcessState != nil {
@@ -139,11 +146,96 @@ func (r *Runner) Run(o Opt, args ...string) *Result {
 		res.StartErr = err
 		res.Exit = -1
 	}
-	if ctx.Err() != nil {
+	if ctx.Err() != nil && !res.Blocked {
 		res.WallKill = true
 		r.WallHits.Add(1)
 	}
 	return res
+}
+
+// supervise waits for the child. A child that is still there after IdleAfter is sampled: if its
+// CPU time (utime+stime from /proc) does not advance at all over three consecutive samples while it
+// is sleeping, nothing in it can make progress any more (its stdin is fully written and closed by
+// then) and it is killed and reported as Blocked. A child that keeps consuming CPU is left to the
+// CPU-time rlimit; the wall-clock limit of the context only ever yields "inconclusive".
+func (r *Runner) supervise(cmd *exec.Cmd, done chan error, res *Result) error {
+	idleAfter := r.IdleAfter
+	if idleAfter == 0 {
+		idleAfter = 25 * time.Second
+	}
+	select {
+	case err := <-done:
+		return err
+	case <-time.After(idleAfter):
+	}
+	pid := cmd.Process.Pid
+	last, lastOK := procCPU(pid)
+	still := 0
+	for {
+		select {
+		case err := <-done:
+			return err
+		case <-time.After(2 * time.Second):
+		}
+		cur, ok := procCPU(pid)
+		if ok && lastOK && cur == last && procSleeping(pid) {
+			still++
+		} else {
+			still = 0
+		}
+		last, lastOK = cur, ok
+		if still >= 3 {
+			res.Blocked = true
+			cmd.Process.Kill()
+			return <-done
+		}
+	}
+}
+
+// procCPU returns utime+stime (clock ticks) of a process.
+func procCPU(pid int) (uint64, bool) {
+	b, err := os.ReadFile(fmt.Sprintf("/proc/%d/stat", pid))
+	if err != nil {
+		return 0, false
+	}
+	// fields after the parenthesised command name
+	i := bytes.LastIndexByte(b, ')')
+	if i < 0 {
+		return 0, false
+	}
+	f := strings.Fields(string(b[i+1:]))
+	if len(f) < 13 {
+		return 0, false
+	}
+	u, err1 := strconv.ParseUint(f[11], 10, 64)
+	st, err2 := strconv.ParseUint(f[12], 10, 64)
+	if err1 != nil || err2 != nil {
+		return 0, false
+	}
+	// include all threads' time: /proc/pid/stat already aggregates the thread group
+	return u + st, true
+}
+
+// procSleeping reports whether every thread of the process is sleeping (state S) - none running or in disk wait.
+func procSleeping(pid int) bool {
+	ents, err := os.ReadDir(fmt.Sprintf("/proc/%d/task", pid))
+	if err != nil {
+		return false
+	}
+	for _, e := range ents {
+		b, err := os.ReadFile(fmt.Sprintf("/proc/%d/task/%s/stat", pid, e.Name()))
+		if err != nil {
+			continue
+		}
+		i := bytes.LastIndexByte(b, ')')
+		if i < 0 || i+2 >= len(b) {
+			return false
+		}
+		if st := b[i+2]; st != 'S' {
+			return false
+		}
+	}
+	return true
 }
 
 // Scratch is a private temporary directory removed by Close.
